@@ -4,7 +4,7 @@
 //!
 //! input line:  <framing>|<units>|<auth>|<frames>
 //!   framing : tcp | rtu
-//!   units   : - | u;u;...      u = uid:m:c:rex:wex:coils:discrete:holding:input
+//!   units   : - | u;u;...      u = uid:m:c:rex:wex:coils:discrete:holding:input   (given in ascending uid order)
 //!             lists are `-` or comma separated dot-tuples:
 //!             rex  kind.addr.code   a read (kind 0 coil,1 discrete,2 holding,3 input) of addr raises code
 //!             wex  kind.addr.code   a write (kind 0 single coil,1 single register,2 coils,3 registers)
@@ -333,7 +333,9 @@ fn run_case(line: &str, decode: DecodeLevel) -> String {
     let log: Log = Arc::new(Mutex::new(Vec::new()));
     let mut map: ServerHandlerMap<Handler> = ServerHandlerMap::new();
     if f[1] != "-" {
-        for u in f[1].split(';') {
+        // inserted in reverse, so that the order the session task visits them in (BTreeMap: ascending
+        // unit id) differs from the insertion order
+        for u in f[1].split(';').rev() {
             let (id, h) = parse_unit(u, &log);
             map.add(UnitId::new(id), h.wrap());
         }
